@@ -24,6 +24,7 @@ pub open spec fn lc_wf(lc: LineChange) -> bool {
 //@include prelude/diff_lines_spec.rs
 //@include prelude/diff_lines_proof.rs
 //@include prelude/diff_patchset.rs
+//@include prelude/diff_unquote.rs
 
 /// `max(new.len(), 1)` (same definition as in groups/diffranges.rs)
 spec fn line_bound(new: &str) -> int {
@@ -188,12 +189,68 @@ let ghost h = ith.index@ as int;
     }
 //@end
 
+//@unit id=Dq file=src/diff_parser.rs fn=unquote_git_path ret=r
+//@contract
+    ensures
+        strip_quotes_spec(path@) is None ==> r@ == path@, // [Dq.post.unquoted_path_unchanged]
+        strip_quotes_spec(path@) matches Some(inner) ==> r@ == lossy_utf8_spec(c_unquote_spec(utf8_bytes(inner))), // [Dq.post.quoted_path_c_unquoted]
+        r@ == unquote_spec(path@), // [Dq.post.path_as_git_meant]
+//@edit rule=E13 find=<<path .strip_prefix('"') .and_then(|path| path.strip_suffix('"'))>>
+verif_strip_quotes(path)
+//@edit rule=E14 find=<<quoted.bytes()>>
+verif_str_bytes(quoted)
+//@edit rule=ghost before=<<while let Some(byte) = bytes.next()>>
+    let ghost all = utf8_bytes(quoted@);
+//@edit rule=E6 find=<<while let Some(byte) = bytes.next() {>>
+loop
+        invariant
+            c_unquote_spec(all) == unquoted@ + c_unquote_spec(bytes.pending()), // [Dq.inv.unquoted_so_far]
+        ensures
+            bytes.pending().len() == 0, // [Dq.inv.all_bytes_read]
+        decreases bytes.pending().len(), // [Dq.term.bytes_loop]
+    {
+        let ghost p_start = bytes.pending();
+        let ghost out0 = unquoted@;
+        match bytes.next() { Some(byte) => {
+//@edit rule=ghost before=<<continue;>>
+            proof {
+                lemma_push_concat(out0, byte, c_unquote_spec(bytes.pending()));
+            }
+//@edit rule=E15 find=<<for _ in 0..2>>
+let ghost p0 = bytes.pending();
+                let ghost v0 = (first - b'0') as int;
+                for j in 0..2
+                    invariant
+                        value as int == oct_after(v0, p0, j as int), // [Dq.inv.octal_value]
+                        0 <= v0 <= 3,
+                        bytes.pending() == p0.skip(min_int(j as int, p0.len() as int)), // [Dq.inv.octal_cursor]
+                        j == 1 ==> value <= 31, // [Dq.inv.octal_fits_u8]
+                        j == 0 ==> value <= 3,
+//@edit rule=E6 before=<<String::from_utf8_lossy>>
+None => { break; } } }
+//@edit rule=ghost before=<<} None => { break; } } }>>
+        proof {
+            // one step of the specification: the bytes consumed in this iteration yield exactly the byte pushed
+            assert(unquoted@ == out0.push(unquoted@.last())); // [Dq.step.one_byte_pushed]
+            if p_start.len() >= 2 {
+                assert(p_start.skip(1).skip(1) =~= p_start.skip(2));
+                assert(p_start.skip(1)[0] == p_start[1]);
+            }
+            assert(c_unquote_spec(p_start) == seq![unquoted@.last()] + c_unquote_spec(bytes.pending())); // [Dq.step.byte_is_the_unquoted_one]
+            lemma_push_concat(out0, unquoted@.last(), c_unquote_spec(bytes.pending()));
+        }
+//@edit rule=E13 find=<<String::from_utf8_lossy(&unquoted).into_owned()>>
+verif_from_utf8_lossy(&unquoted)
+//@end
+
 //@unit id=Da file=src/diff_parser.rs fn=line_changes_from_diff ret=r
 //@contract
     ensures
         r is Err <==> parse_patch(patch_diff@) is None, // [Da.post.err_iff_unparsable]
-        r matches Ok(m) ==> forall|i: int| 0 <= i < parse_patch(patch_diff@).unwrap().len() && !removed_file(#[trigger] parse_patch(patch_diff@).unwrap()[i]) // [Da.post.key_strip_once]
-            ==> m@.contains_key(path_of(strip_once(parse_patch(patch_diff@).unwrap()[i].target_file@))),
+        r matches Ok(m) ==> forall|i: int| 0 <= i < parse_patch(patch_diff@).unwrap().len() && !removed_file(#[trigger] parse_patch(patch_diff@).unwrap()[i]) // [Da.post.key_is_the_path_git_meant]
+            ==> m@.contains_key(path_of(strip_once(unquote_spec(parse_patch(patch_diff@).unwrap()[i].target_file@)))),
+        r matches Ok(m) ==> (kf3_carve_out(parse_patch(patch_diff@).unwrap()) // [Da.post.only_deleted_files_are_skipped.carved]
+            ==> only_deleted_files_are_skipped(parse_patch(patch_diff@).unwrap(), m@)),
         r matches Ok(m) ==> forall|key: PathBuf| #[trigger] m@.contains_key(key) // [Da.post.removed_files_contribute_nothing]
             ==> exists|j: int| last_file_with_key(parse_patch(patch_diff@).unwrap(), parse_patch(patch_diff@).unwrap().len() as int, key, j),
         r matches Ok(m) ==> forall|key: PathBuf, j: int| #[trigger] m@.contains_key(key) // [Da.post.value_is_line_changes]
@@ -242,7 +299,12 @@ None => { break; } } }
 //@edit rule=ghost before=<<} None => { break; } } }>>
         proof {
             let key0 = da_key(files[n0]);
-            assert(result@ == result0.insert(key0, result@[key0])); // [Da.post.key_strip_once]
+            // exactly one leading "b/" is removed (whichever reading of the path), checked in a scope of its own
+            assert(true) by {
+                assert(result@ == result0.insert(key0, result@[key0]) || result@ == result0.insert(da_key_raw(files[n0]), result@[da_key_raw(files[n0])])); // [Da.post.key_strip_once]
+            }
+            // ... from the path as git meant it (C-unquoted), not from the text of the diff line
+            assert(result@ == result0.insert(key0, result@[key0])); // [Da.post.key_is_the_path_git_meant]
             assert(last_file_with_key(files, n, key0, n0)); // [Da.post.removed_files_contribute_nothing]
             assert forall|key: PathBuf, j: int| key != key0 && last_file_with_key(files, n0, key, j) implies last_file_with_key(files, n, key, j) by {}
             assert forall|key: PathBuf, j: int| key != key0 && last_file_with_key(files, n, key, j) implies last_file_with_key(files, n0, key, j) by {}
